@@ -141,6 +141,11 @@ class Threads(EngineBase):
                 else:
                     attrs = []
                 op_ = {"op": "as_dict", "attrs": attrs}
+                if isinstance(attrs, list) and attrs and k_ < 0.55 and \
+                        rng.random() < 0.3:
+                    # a name given twice is still one key
+                    op_["dup"] = [rng.choice(attrs) for _ in range(
+                        rng.randrange(1, 3))]
                 if rng.random() < 0.35:
                     # (a refusal of /proc/<pid>/stat itself is C03's
                     # business: it trips the identity re-check, KF-C03-1)
@@ -244,6 +249,34 @@ class Threads(EngineBase):
                 out = ("exc", e)
             k.end_op()
             acc = [a for a in k.acclog[acc0:] if a[2] >= 0]
+            if kind == "as_dict" and op.get("dup") and not stack and \
+                    not op.get("deny") and out[0] == "value":
+                # differential: the same call again, then with some names
+                # repeated - same OS accesses, same answer
+                res_, tr_ = [], []
+                for attrs_ in (op["attrs"], op["attrs"] + op["dup"]):
+                    a0_ = len(k.acclog)
+                    k.begin_op(idx)
+                    try:
+                        res_.append(("value", p.as_dict(attrs=attrs_,
+                                                        ad_value="<ad>")))
+                    except BaseException as e:  # noqa: BLE001
+                        if is_harness_exc(e):
+                            raise
+                        res_.append(("exc", repr(e)))
+                    k.end_op()
+                    tr_.append([(a[3], str(a[4])) for a in k.acclog[a0_:]
+                                if a[2] >= 0])
+                if tr_[0] != tr_[1] or repr(res_[0]) != repr(res_[1]):
+                    V("C16.as_dict", ["duplicate_names"], "as_dict",
+                      "as_dict(attrs=%r) differs from as_dict(attrs=%r): %d "
+                      "vs %d OS accesses, %s" % (
+                          op["attrs"] + op["dup"], op["attrs"], len(tr_[1]),
+                          len(tr_[0]), "same answer" if repr(res_[0]) ==
+                          repr(res_[1]) else "different answers"))
+                else:
+                    probes["duplicate_names_checked"] = probes.get(
+                        "duplicate_names_checked", 0) + 1
             reads = {}
             allreads = []
             opens = {}
@@ -517,7 +550,27 @@ class Threads(EngineBase):
         world = self.target_world(rng)
         nthreads = rng.choice([2, 2, 3])
         threads = []
-        if prog == "C16t":
+        if prog == "C16t" and rng.random() < 0.25:
+            # targeted shape (small programs, so that a few pre-emptions
+            # cover them well): a plain call of one thread races with another
+            # thread entering / leaving blocks around a change of the process
+            getters = list(SINGLE_SOURCE)
+            g = rng.choice(getters)
+            nthreads = 2
+            a_ops = []
+            if rng.random() < 0.4:
+                a_ops.append({"op": "block", "gets": [g]})
+            a_ops.append({"op": "ev", "ev": gen_change(rng)})
+            a_ops.append(rng.choice([
+                {"op": "block", "gets": [g]},
+                {"op": "block", "gets": [g, rng.choice(getters)]},
+                {"op": "as_dict", "attrs": [g]}]))
+            b_ops = [{"op": "get", "m": g}] + (
+                [{"op": "get", "m": g}] if rng.random() < 0.3 else [])
+            # (thread 0 runs first: either order is one pre-emption apart)
+            threads = [b_ops, a_ops] if rng.random() < 0.6 else [a_ops, b_ops]
+            shape = {"plain": 0 if threads[0] is b_ops else 1}
+        elif prog == "C16t":
             getters = list(SINGLE_SOURCE)
             for t in range(nthreads):
                 ops = []
@@ -647,6 +700,8 @@ class Threads(EngineBase):
                 threads.append(ops)
         plan = {"prog": prog, "world": world, "threads": threads,
                 "preempt": [], "ops": []}
+        if prog == "C16t" and len(threads) == 2 and "shape" in locals():
+            plan["shape"] = shape
         if prog == "C04t":
             files = {}
             plan["world"] = {"procs": [gen.gen_proc(rng, pid, 1, files,
@@ -901,6 +956,20 @@ class Threads(EngineBase):
                         if r2.get("v0", 10 ** 9) < vlo <= r2.get(
                                 "v1", -1) and r2["op"]["op"] == "get":
                             extra.append("plain_call_spans_block_start")
+                            # the late store needs the call to have looked
+                            # the cache up during one block and to store
+                            # during a later one: two block operations of
+                            # other threads overlap it
+                            nb = sum(1 for t3, recs3 in enumerate(records)
+                                     if t3 != t2 for r3 in recs3
+                                     if r3["op"]["op"] in ("block", "as_dict")
+                                     and r3["nacc0"] <= r2.get(
+                                         "nacc_end", 10 ** 12) and
+                                     r3.get("nacc_end", 10 ** 12) >=
+                                     r2["nacc0"])
+                            if nb >= 2:
+                                extra.append("spanning_call_overlaps_two_"
+                                             "blocks")
                 V("C16.valid_value", [ctx] + extra, name,
                   "thread %d: %s() -> %r is "
                   "not the answer for any kernel version in [%d, %d] "
@@ -1343,9 +1412,26 @@ class Threads(EngineBase):
                       "_remove_dead", "acc:read", "acc:open",
                       "acc:listdir", "is_running", "_init", "_get_ident",
                       "__eq__")
+        shape = base.get("shape")
+        if shape and len(sites) == 2 and all(sites):
+            budget = 30 if tier == "quick" else 90
         for j in range(budget):
             pre = []
             npre = rng.randrange(1, maxpre + 1)
+            if shape and len(sites) == 2 and all(sites):
+                # the plain thread is stopped somewhere inside the memoising
+                # wrapper, the block thread somewhere later, and back
+                tb = shape["plain"]
+                ta = 1 - tb
+                wsites = [i for i, s_ in enumerate(sites[tb])
+                          if "wrapper" in str(s_)] or list(
+                              range(len(sites[tb])))
+                pre = [{"t": tb, "at": rng.choice(wsites), "to": ta},
+                       {"t": ta, "at": rng.randrange(len(sites[ta])),
+                        "to": tb}]
+                if rng.random() < 0.3:
+                    pre.append({"t": tb, "at": rng.choice(wsites), "to": ta})
+                npre = 0
             for _ in range(npre):
                 t = rng.randrange(nthreads)
                 if not sites or t >= len(sites) or not sites[t]:
